@@ -60,6 +60,8 @@ def handleA (st : St) (n : Nat) (toks : List String) : Result := Id.run do
       if istatus != 200 || hx ibody != last then
         let f := fail st n "C16" "GET does not serve the bytes the last accepted update for this log returned"
         st := f.st; outs := outs ++ f.out
+        let f := fail st n "C04" "HTTP GET of the latest checkpoint does not return exactly the bytes the last accepted update returned"
+        st := f.st; outs := outs ++ f.out
     | none => pure ()
     match held, clean && Api.routeMatch id with
     | some b, true =>
